@@ -718,9 +718,15 @@ def r1_sliding(ctx, repo):
         ctx.undecided("R1", c + ":pad", "strided base is not the padded row: %r" % (pad,), loc)
         return
     want_p = it.floor_sym(W.scale(Fraction(1, 2)), State())
-    ctx.check(pad.left == want_p and pad.right == want_p, "R1", c + ":pad-amount",
+    pv = pad.left == want_p and pad.right == want_p
+    wit = None
+    if not pv:
+        wit = differ_witness(it, pad.left, want_p) or differ_witness(it, pad.right, want_p)
+        pv = False if wit else None
+    ctx.check(pv, "R1", c + ":pad-amount",
               "both ends are padded floor(window_length / 2) times",
-              "padding is (%r, %r), documented floor(window_length/2) = %r on both ends" % (pad.left, pad.right, want_p), loc,
+              "padding is (%r, %r), documented floor(window_length/2) = %r on both ends%s: the windows are not centred on their "
+              "time point" % (pad.left, pad.right, want_p, (" (e.g. %s)" % wit) if wit else ""), loc,
               witness={"left": repr(pad.left), "right": repr(pad.right)})
     ctx.check(pad.mode == "edge", "R1", c + ":pad-mode", "padding repeats the edge values",
               "padding mode is %r, documented: repeat the first / last value" % (pad.mode,), loc)
@@ -747,6 +753,9 @@ def r1_sliding(ctx, repo):
     if len(pb) == 1 and plen:
         ctx.check(pb[0].shape == [n, plen[0]], "R1", c + ":padded-shape", "padded buffer is (n_instances, n_timepoints + 2*pad)",
                   "padded buffer has shape %r but each padded row has length %r" % (pb[0].shape, plen[0]), loc)
+    elif not pb and not any(isinstance(x.value, Pad) for b in bufs for x in b.stores):
+        ctx.ok("R1", c + ":padded-shape", "the rows are padded by one np.pad call along the time axis (no intermediate buffer)", loc,
+               nontrivial=False)
     else:
         ctx.undecided("R1", c + ":padded-shape", "padded buffer not identified", loc)
     if whole_view is not None:
@@ -843,9 +852,24 @@ def same_function(it, f, g, probe, frame):
 
 
 # -------------------------------------------------------------------- R1: interval slices
+def table_of(l):
+    """The fitted interval table a loop runs over: directly, by position (``for k in range(len(T))``) or inside
+    ``enumerate`` / ``zip``; None if the loop is not over a table."""
+    it_ = l.it
+    if isinstance(it_, (Rows, Pieces, Cols)) or isinstance(it_, ListV) and isinstance(it_.it, Pieces):
+        return it_
+    if getattr(l, "over", None) is not None and isinstance(l.over, (Rows, Pieces, Cols)):
+        return l.over
+    if isinstance(it_, ZipV):
+        ts = [x for x in it_.items if isinstance(x, (Rows, Pieces, Cols))]
+        if len(ts) == 1:
+            return ts[0]
+    return None
+
+
 def extent_of(elem_loop):
     """Half-open extent [lo, hi) that the generic element of the fitted interval table denotes, with a description."""
-    itv, var = elem_loop.it, elem_loop.var
+    itv, var = table_of(elem_loop), elem_loop.var
     if isinstance(itv, Rows):
         r = Row(itv, var)
         return r.start(), r.end(), "row (start, end) of %s" % itv.name
@@ -901,11 +925,11 @@ def check_slices(ctx, construct, it, panel, time_axis, facts, loc, fitted_len=No
         return
     lo = spec[time_axis][1] if spec[time_axis][1] is not None else ZERO
     hi = spec[time_axis][2]
-    lp = [l for l in e.loops if isinstance(l.it, (Rows, Pieces, Cols)) or isinstance(l.it, ListV) and isinstance(l.it.it, Pieces)]
+    lp = [l for l in e.loops if table_of(l) is not None]
     if len(lp) != 1 or hi is None:
         ctx.undecided("R1", construct, "slice is not made inside one loop over the fitted intervals: %r" % (e.loops,), loc)
         return
-    itv = lp[0].it
+    itv = table_of(lp[0])
     if isinstance(itv, Cols):
         g = generic_cols(it, itv)
         ext = (g[0], g[1], "row (start, end) of column_stack([starts, ends])") if len(g) == 2 and all(isinstance(x, Lin) for x in g) else None
@@ -1128,13 +1152,32 @@ def r1_paa_frames(ctx, repo):
     fn = repo.func(PAA, "PAA._perform_paa_along_dim")
     loc = ctx.loc(cls.module, fn)
     c = "PAA._perform_paa_along_dim:frames"
-    outers = [st for st in fn.body if isinstance(st, ast.For)]
-    inners = [st for o in outers for st in o.body if isinstance(st, ast.For)
-              and any(isinstance(x, ast.Call) and isinstance(x.func, ast.Attribute) and x.func.attr == "append" for x in ast.walk(st))]
-    if len(outers) != 1 or len(inners) != 1 or not isinstance(inners[0].target, ast.Name):
-        ctx.undecided("R1", c, "expected one loop over the instances containing one loop over the time points that emits frames", loc)
+    # the frame loop is found by what it does (a loop over range(..) that reads <series>[loop variable] and appends), in
+    # the method itself or in a helper method it calls on self
+    cands, work, seen = [], [fn], set()
+    while work:
+        g = work.pop()
+        if id(g) in seen:
+            continue
+        seen.add(id(g))
+        for nd in ast.walk(g):
+            if isinstance(nd, ast.For) and isinstance(nd.target, ast.Name) and isinstance(nd.iter, ast.Call) \
+                    and dotted(nd.iter.func) == "range" \
+                    and any(isinstance(x, ast.Call) and isinstance(x.func, ast.Attribute) and x.func.attr == "append" for x in ast.walk(nd)) \
+                    and any(isinstance(x, ast.Subscript) and isinstance(x.slice, ast.Name) and x.slice.id == nd.target.id
+                            for x in ast.walk(nd)) \
+                    and not any(isinstance(x, ast.For) for b_ in nd.body for x in ast.walk(b_)):
+                cands.append((g, nd))
+            if isinstance(nd, ast.Call) and isinstance(nd.func, ast.Attribute) and isinstance(nd.func.value, ast.Name) \
+                    and nd.func.value.id == "self" and len(seen) < 6:
+                hit = repo.lookup_method(cls, nd.func.attr)
+                if hit is not None:
+                    work.append(hit[1])
+    if len(cands) != 1:
+        ctx.undecided("R1", c, "expected one loop over the time points that reads series[n] and emits frames, found %d" % len(cands), loc)
         return
-    outer, inner = outers[0], inners[0]
+    host, inner = cands[0]
+    loc = ctx.loc(cls.module, host)
     ex = PolyExec()
 
     def lenient(stmts, path):
@@ -1151,8 +1194,13 @@ def r1_paa_frames(ctx, repo):
         return path
 
     try:
-        pre = lenient(fn.body[:fn.body.index(outer)], Path({}))
-        pre = lenient(outer.body[:outer.body.index(inner)], pre)
+        pre = Path({})
+        block = host.body
+        for st_ in astq.enclosing_stmts(host, inner):
+            pre = lenient(block[:block.index(st_)], pre)
+            if st_ is inner:
+                break
+            block = st_.body if inner in list(ast.walk(ast.Module(body=list(st_.body), type_ignores=[]))) else getattr(st_, "orelse", [])
         carried = sorted(carried_names(inner.body, target_names(inner.target)))
         init = {v: pre.env.get(v) for v in carried}
         start = pre.copy()
@@ -1161,10 +1209,11 @@ def r1_paa_frames(ctx, repo):
         for v in carried:
             start.env[v] = Poly.sym(v + "@pre")
         bound_v = None
-        if isinstance(inner.iter, ast.Call) and dotted(inner.iter.func) == "range" and len(inner.iter.args) == 1:
-            bound_v = ex.atom(ex.ev(inner.iter.args[0], pre.env))
+        ra = inner.iter.args
+        if len(ra) == 1 or len(ra) == 2 and isinstance(ra[0], ast.Constant) and ra[0].value == 0:
+            bound_v = ex.atom(ex.ev(ra[-1], pre.env))
         paths = ex.run(inner.body, [start])
-    except Unknown as e:
+    except (Unknown, ValueError) as e:
         ctx.undecided("R1", c, "the frame loop is not interpretable as polynomial updates (%s)" % e, loc)
         return
     xs = sorted({s_ for p_ in paths for v in p_.env.values() if isinstance(v, Poly) for s_ in v.symbols()
@@ -1337,15 +1386,21 @@ def r1_feature_columns(ctx, repo):
     sv.attrs.update(intervals_=Rows("intervals_"))
     traces, fst, k, f2 = run_method(repo, it, sv, "transform", {"X": Src("X", "raw")})
     tag = "RandomIntervalFeatureExtractor.transform"
-    floops = [l for l in {id(l): l for e in it.events for l in e.loops}.values()
-              if isinstance(l.it, CallV) and l.it.name.endswith("._check_features")]
+    def feat_seq(l):
+        cs = [l.it] + (list(l.it.items) if isinstance(l.it, ZipV) else []) + ([l.over] if getattr(l, "over", None) is not None else [])
+        cs = [x for x in cs if isinstance(x, CallV) and x.name.endswith("._check_features")]
+        return cs[0] if len(cs) == 1 else None
+
+    all_loops = list({id(l.node): l for e in it.events for l in e.loops}.values())
+    floops = [l for l in all_loops if feat_seq(l) is not None]
     if len(floops) != 1:
         ctx.undecided("R2", tag + ":features", "the loop over _check_features(self.features) was not found", loc)
     else:
-        a = floops[0].it.args[0] if len(floops[0].it.args) == 1 and not floops[0].it.kwargs else None
+        fs_ = feat_seq(floops[0])
+        a = fs_.args[0] if len(fs_.args) == 1 and not fs_.kwargs else None
         ctx.check(match(a, Opq("self.features")), "R2", tag + ":features", "the features applied are _check_features(self.features)",
                   "the features applied are _check_features(%r), expected the features option" % (a,), loc)
-    iloops = [l for l in {id(l): l for e in it.events for l in e.loops}.values() if isinstance(l.it, Rows)]
+    iloops = [l for l in all_loops if isinstance(table_of(l), Rows)]
     stores = dedupe([e for e in it.events if e.kind == "store" and iloops and iloops[0] in e.loops and len(e.spec) == 2
                      and e.spec[0] == ("a",)])
     c = tag + ":column-counter"
@@ -1385,7 +1440,7 @@ def r1_feature_columns(ctx, repo):
     # width of the output: one column per (feature, interval) pair
     xb = stores[0].base
     if isinstance(xb, Buf) and len(xb.shape) == 2:
-        nf, ni = Lin.sym("len(%r)" % (floops[0].it,)), Lin.sym("len(%r)" % (iloops[0].it,))
+        nf, ni = Lin.sym("len(%r)" % (feat_seq(floops[0]),)), Lin.sym("len(%r)" % (table_of(iloops[0]),))
         want_w = it.binop(ast.Mult(), nf, ni, State())
         result_dtype(ctx, "R1", tag + ":output-dtype", xb, loc)
         ctx.check(xb.shape == [n, want_w], "R1", tag + ":output-shape", "the output has n_instances rows and n_features * n_intervals columns",
@@ -1393,6 +1448,18 @@ def r1_feature_columns(ctx, repo):
     else:
         ctx.undecided("R1", tag + ":output-shape", "the output array is not a fresh 2-d buffer: %r" % (xb,), loc)
     sel = stores[0].spec[1]
+    if sel[0] == "i":
+        # an explicit column formula: the pair (feature k, interval j) goes to column k * n_intervals + j
+        kpos, jpos = it._position(floops[0]), it._position(iloops[0])
+        ni_ = Lin.sym("len(%r)" % (table_of(iloops[0]),))
+        good = None
+        if kpos is not None and jpos is not None:
+            want_col = it.binop(ast.Mult(), kpos, ni_, State()) + jpos
+            good = sel[1] == want_col
+        ctx.check(good, "R1", c, "the (feature k, interval j) pair is stored in column k * n_intervals + j",
+                  "the (feature k, interval j) pair is stored in column %r, expected k * n_intervals + j: with 2 features and 3 "
+                  "intervals columns are overwritten / left empty" % (sel[1],), loc, witness={"column": repr(sel[1])})
+        return
     name = sel[1].tag[len("loop-carried:"):] if sel[0] == "x" and isinstance(sel[1], Opq) and sel[1].tag.startswith("loop-carried:") else None
     if name is None:
         ctx.undecided("R1", c, "the column index %r is not a running counter" % (sel,), loc)
@@ -2131,7 +2198,7 @@ def r3_method(ctx, repo, rel, cname, meth, args, min_loops, attrs=None, extra_no
                 badw = "the result list outlives the call (%s): rows of an earlier call / instance are still in it" % acc.persist
             elif len(evs) != 1:
                 badw = "%d append sites add to the same result list in one iteration" % len(evs)
-            elif isinstance(l.node, ast.For) and not must_execute(l.node.body, evs[0].node):
+            elif isinstance(l.node, (ast.For, ast.While)) and not must_execute(l.node.body, evs[0].node):
                 badw = "the result of an instance is appended only on some paths through the loop body (rows would shift)"
             elif [m for m, _ in acc.other]:
                 badw = "the result list is also modified by %s" % ", ".join(sorted({m for m, _ in acc.other}))
@@ -2171,11 +2238,13 @@ def r3_method(ctx, repo, rel, cname, meth, args, min_loops, attrs=None, extra_no
         else:
             ctx.ok("R3", c + ":writes", "output row = loop instance (%d indexed stores / ordered appends)" % outs, lloc)
         # (iv) state
-        if isinstance(l.node, ast.For):
+        if isinstance(l.node, (ast.For, ast.While)):
             if any(isinstance(x, (ast.Break, ast.Continue)) for x in own_level(l.node.body)):
                 ctx.undecided("R3", c + ":state", "the per-instance loop contains break / continue", lloc)
             else:
-                car = sorted(carried_names(l.node.body, target_names(l.node.target)))
+                header = tuple(getattr(l, "bound_names", ())) or (target_names(l.node.target) if isinstance(l.node, ast.For) else ())
+                counters = {nm for x in instances[id(l.node)] for nm in getattr(x, "counters", ())}
+                car = sorted(set(carried_names(l.node.body, header)) - counters)
                 ctx.check(not car, "R3", c + ":state", "no local carries a value from one instance to the next",
                           "local(s) %s keep their value from the previous instance when the next one is processed: "
                           "output row i depends on rows < i" % ", ".join(car), lloc, witness={"carried": car})
@@ -2381,8 +2450,9 @@ def row_layout(ctx, repo, cname, res):
     verdict = None
     why = "the wrapped transformer receives %r" % (arg,)
     if inner is not None:
-        verdict = bool(inst) and inner == Sub(X3, [("i", inst[-1])])
-        if not verdict and not (isinstance(inner, Sub) and inner.base == X3):
+        all_vars = [x.var for l_ in cv.loops for x in [l_] if x.var is not None]
+        verdict = any(inner == Sub(X3, [("i", v)]) for v in (inst + all_vars))
+        if not verdict and not (isinstance(inner, Sub) and inner.base == X3 and len(inner.spec) == 1 and inner.spec[0][0] == "i"):
             verdict = None
     elif isinstance(arg, Sub) and arg.base == X3:
         verdict = False
